@@ -127,15 +127,22 @@ uint32_t COTmrGetTicks(CO_TMR *tmr, uint16_t time, uint32_t unit)
 {
     uint32_t ticks = 0u;
     uint32_t freq  = tmr->Freq;
+    uint32_t rest;
 
     if (freq == 0u) {
         ticks = 0u;
     } else {
         /* ticks = (time * freq) / unit, calculated without 32bit
-         * overflow for the supported time units
+         * overflow for the supported time units; a result which
+         * needs more than 32bit is limited to the longest time
          */
-        ticks = ((uint32_t)time * (freq / unit)) +
-                (((uint32_t)time * (freq % unit)) / unit);
+        rest = ((uint32_t)time * (freq % unit)) / unit;
+        if (((freq / unit) != 0u) &&
+            ((uint32_t)time > ((0xFFFFFFFFu - rest) / (freq / unit)))) {
+            ticks = 0xFFFFFFFFu;
+        } else {
+            ticks = ((uint32_t)time * (freq / unit)) + rest;
+        }
     }
     return (ticks);
 }
